@@ -381,3 +381,13 @@ Proof.
   intros Hp Hd Hs. cbn [spec_call]. rewrite Hp, Hd, Hs, N.eqb_refl. cbn.
   destruct (bytes_eqb w b) eqn:Eb; intros H; inversion H. apply bytes_eqb_eq. exact Eb.
 Qed.
+
+(* ------------------------------------------------------------------ differential Pcheck *)
+Lemma diff_code_one a b : diff_code a b = 1%Z <-> a = b.
+Proof.
+  unfold diff_code. destruct (T_eqb a b) eqn:E.
+  - split; [intros _; apply T_eqb_eq; exact E|reflexivity].
+  - split.
+    + destruct (T_eqb (norm_expired a) (norm_expired b)); discriminate.
+    + intros ->. rewrite T_eqb_refl in E. discriminate.
+Qed.
